@@ -843,9 +843,24 @@ class Emitter:
             ty = self.arith_type(lt, rt)
         return '%s %s %s' % (l, op, r), ty
 
+    def rebase_of(self, e):
+        """R18: base pointer for a local iterator pointer (unit configuration), or None"""
+        rb = getattr(self.ctx, 'rebase', {}).get(self.cur_func)
+        if not rb:
+            return None
+        while e.k in ('paren',) or (e.k in ('prefix', 'postfix') and e.a[0] in ('++', '--')):
+            e = e.a[0] if e.k == 'paren' else e.a[1]
+        if e.k == 'id' and e.a[0] in rb:
+            return rb[e.a[0]]
+        return None
+
     def e_prefix(self, n):
         op, e = n.a
         txt, ty = self.emit(e)
+        if op == '*' and self.rebase_of(e):
+            fire('R18')
+            b = self.rebase_of(e)
+            return '(*(%s + ((%s) - %s)))' % (b, txt, b), self.deref(ty)
         if is_civil(ty) and op in ('++', '--', '-', '+'):
             raise ExtractError('unary %s on civil type' % op)
         if op == '*':
@@ -900,6 +915,10 @@ class Emitter:
         if mt is None:
             # method names are handled in e_call; return a marker
             return (o, ot, op, name), 'method'
+        if op == '->' and self.rebase_of(obj):
+            fire('R18')
+            b = self.rebase_of(obj)
+            return '(*(%s + ((%s) - %s))).%s' % (b, o, b, name), mt
         return '%s%s%s' % (o, op, name), mt
 
     def e_call(self, n):
